@@ -131,6 +131,25 @@ fn c02_fill_solid_any_rectangle() {
     kani::cover!(d.di.windows == 0);
 }
 
+/// bounded, cheap: small rectangles on the plain 5 x 4 panel - exactly one window and one burst per solid fill that
+/// touches the panel, none otherwise (the every-change version of the C20 clause of the harness above; it stays cheap on
+/// code that loops per row)
+#[kani::proof]
+#[kani::unwind(22)]
+fn c20_fill_solid_one_window_plain() {
+    let clock = leak_clock();
+    let (mut d, _o) = plain_fb_display(clock);
+    let (rx, ry): (i8, i8) = (kani::any(), kani::any());
+    let (rw, rh): (u8, u8) = (kani::any(), kani::any());
+    kani::assume(rx >= -3 && rx <= 6 && ry >= -3 && ry <= 5 && rw <= 9 && rh <= 8);
+    let rect = Rectangle::new(Point::new(rx as i32, ry as i32), Size::new(rw as u32, rh as u32));
+    kani::assert(d.fill_solid(&rect, colour(7)).is_ok(), "C02: fill_solid returned an error on a fault-free bus");
+    let visible = rw > 0 && rh > 0 && (rx as i32) < 5 && (ry as i32) < 4 && (rx as i32 + rw as i32) > 0 && (ry as i32 + rh as i32) > 0;
+    kani::assert(d.di.windows == visible as u32 && d.di.bursts == d.di.windows, "C20: a solid fill uses exactly one address window (none when nothing is visible)");
+    kani::cover!(visible && rx < 0 && ry < 0);
+    kani::cover!(!visible);
+}
+
 // ---------------------------------------------------------------------------------------------- fill_contiguous
 /// colour stream whose k-th item encodes k (raw value k + 1), `len` items long; O(1) nth
 struct Counting { next: u32, len: u32 }
